@@ -25,7 +25,7 @@ class FunctionSpec:
     def __init__(self, prop, file, qualname, glob, setup, post, raises=None, invariants=None, comp_hooks=None,
                  local_stubs=None, loop_keep=None, variant=None, lemmas=None, decode=None, theory=None,
                  super_=None, local_stub=None, ground=None, source_root=None, notes=None, fn_hook=None,
-                 interp=None, hints=None, budgets=None):
+                 interp=None, hints=None, budgets=None, ext=True):
         self.prop, self.file, self.qualname = prop, file, qualname
         self.glob = glob
         self.setup, self.post, self.raises = setup, post, raises
@@ -45,7 +45,9 @@ class FunctionSpec:
         self.interp = interp
         self.hints = hints
         self.budgets = budgets
+        self.ext = ext        # fresh-process proof pass (off for string theories: cvc5 is the second back end there)
         self.reached = set()
+        self.loops_entered = set()
 
     @property
     def label(self):
@@ -175,8 +177,13 @@ def verify(spec):
         res.paths = c.paths
         res.outcomes = outcomes
         res.reached = sorted(spec.reached)
+        for n in sorted(spec.loops_entered):
+            if 'inv#%d' % n not in spec.reached:
+                raise CheckerError('%s: invariant of loop #%d is satisfiable on no path that reaches the loop '
+                                   '(vacuous invariant)' % (spec.label, n))
         for ob in c.obligations:
-            discharge(ob, lemmas, ground, interp=spec.interp, hints=spec.hints, budgets=spec.budgets)
+            discharge(ob, lemmas, ground, interp=spec.interp, hints=spec.hints, budgets=spec.budgets,
+                      ext=getattr(spec, 'ext', True))
             if os.environ.get('PYVC_TRACE'):
                 print('   [%s] %-8s %6.2fs path=%d %s %s' % (time.strftime('%H:%M:%S'), ob.status, ob.time, ob.path,
                                                            ob.name.split('::')[-1], ob.note), flush=True)
